@@ -650,6 +650,23 @@ func (x *Exec) evalCall(ctx *SpecCtx, e *Expr) Value {
 			return v
 		}
 		specFail("id() of unsupported value in %s", e.String())
+	case "as":
+		// as(x, T): the interface value x viewed as a *T (its dynamic type is asserted separately with typeis)
+		need(2)
+		iv, ok := arg(0).(IfaceV)
+		if !ok {
+			specFail("as() needs an interface value in %s", e.String())
+		}
+		t := x.resolveType(ctx, e.Args[1])
+		return PtrV{Obj: iv.Val, Off: b.Int(0), Elem: t}
+	case "upd":
+		// upd(a, i, v): array a with element i set to v
+		need(3)
+		a, ok := arg(0).(*Term)
+		if !ok || !strings.HasPrefix(a.Sort, "(Array ") {
+			specFail("upd() needs an array term in %s", e.String())
+		}
+		return b.Store(a, x.evalInt(ctx, e.Args[1]), x.evalInt(ctx, e.Args[2]))
 	case "sameobj":
 		need(2)
 		return b.Eq(objOf(arg(0)), objOf(arg(1)))
